@@ -6,6 +6,7 @@ from .interp import Interp, Policy, show, show_lit, walk_effects, K, NONE, subte
 from .algebra import KIND_ATTR, kind_of_attr_term
 from .callgraph import _own_nodes
 from .rules_embed import _bind
+from .rules_merge import lits_text
 
 SIG = '_signatures'
 WRAPPER_CLASSES = ['wrappers:_SimpleWrapped', 'wrappers:_Wrapped', 'specifiers:_ForgerWrapper']
@@ -766,6 +767,30 @@ def rule_wrapped_forger(check, rule):
                             witness='Combination(f)(value=1) fails: __call__ takes its first argument positionally as `arg`')
 
 
+def _same_tuple_as_before(sp):
+    for a, pol in sp.lits:
+        if a[0] == 'is' and pol:
+            x, y = a[1], a[2]
+            for u, v in ((x, y), (y, x)):
+                if u[0] == 'A' and u[2] == '_sigtools__wrappers' and v[0] == 'V':
+                    return True
+    return False
+
+
+def _layers_build_their_own_tuple(repo):
+    """every store to ._sigtools__wrappers in the package assigns a tuple display (a new object per layer)"""
+    n = 0
+    for fi in repo.all_funcs():
+        for node in _own_nodes(fi.node):
+            if isinstance(node, ast.Assign):
+                for t in node.targets:
+                    if isinstance(t, ast.Attribute) and t.attr == '_sigtools__wrappers':
+                        n += 1
+                        if not (isinstance(node.value, ast.Tuple) and node.value.elts):
+                            return False
+    return n > 0
+
+
 def rule_wrappers_enumeration(check, rule):
     """C13.R5"""
     repo = check.repo
@@ -777,6 +802,7 @@ def rule_wrappers_enumeration(check, rule):
     obj = ('P', fi.params()[0][0])
     key = '%s|order' % fi.key
     ok_yield = ok_follow = ok_stop = False
+    skipping = []
     for p in paths:
         for e in p.effects:
             if e.kind == 'loop' and e.extra == 'while':
@@ -785,6 +811,12 @@ def rule_wrappers_enumeration(check, rule):
                     if miss and sp.status == 'return':
                         ok_stop = True
                     ys = [x for x, g in walk_effects(sp.effects) if x.kind == 'yield']
+                    if not miss and not ys and sp.status != 'raise':
+                        # a layer whose wrapper tuple is there, and nothing of it is listed
+                        if _same_tuple_as_before(sp) and _layers_build_their_own_tuple(repo):
+                            # the very tuple object of an earlier layer: an attribute copied by functools.wraps, not a layer
+                            continue
+                        skipping.append(sp)
                     if ys and not miss:
                         y = ys[0].target
                         cur = sp.env_in.get(fi.params()[0][0])
@@ -794,7 +826,18 @@ def rule_wrappers_enumeration(check, rule):
                         if nxt is not None and nxt[0] == 'A' and nxt[2] == '__wrapped__':
                             # the yield must precede following __wrapped__
                             ok_follow = True
-    if ok_yield and ok_follow and ok_stop:
+    for sp in skipping[:1]:
+        node = None
+        for x, g in walk_effects(sp.effects):
+            if x.node is not None:
+                node = x.node
+                break
+        check.violation(rule, site_of(fi, node or fi.node), 'wrappers(): a layer that has a _sigtools__wrappers tuple can be passed over without '
+                        'listing its wrapping functions (%s)' % lits_text(sp.lits)[:200], key=key + '|skips',
+                        witness='@trace @trace def f: wrappers(f) must list trace twice, one entry per layer')
+    if skipping:
+        pass
+    elif ok_yield and ok_follow and ok_stop:
         check.holds(rule, site_of(fi, fi.node), 'wrappers(): yields the current object\'s _sigtools__wrappers, then follows __wrapped__, stops at the first '
                     'object without the attribute (outermost first)', key=key)
     else:
